@@ -48,8 +48,32 @@ func integHash(alg, key int) hash.Hash {
 	return nil
 }
 
-func serialise(ls ...gopacket.SerializableLayer) ([]byte, error) {
+var dirtyFill byte
+
+// dirtyBuffer returns a serialise buffer that has been used before: its
+// memory holds stale bytes (alternating fills), as the connection's shared
+// buffer does after earlier packets. A layer that leaves bytes unwritten
+// produces different output on differently dirtied buffers.
+func dirtyBuffer() gopacket.SerializeBuffer {
+	dirtyFill += 0x5B
+	if dirtyFill == 0 {
+		dirtyFill = 0xA7
+	}
 	buf := gopacket.NewSerializeBuffer()
+	pre, _ := buf.PrependBytes(384)
+	for i := range pre { // before AppendBytes, which may move the data
+		pre[i] = dirtyFill
+	}
+	app, _ := buf.AppendBytes(384)
+	for i := range app {
+		app[i] = dirtyFill ^ 0xFF
+	}
+	buf.Clear()
+	return buf
+}
+
+func serialise(ls ...gopacket.SerializableLayer) ([]byte, error) {
+	buf := dirtyBuffer()
 	if err := gopacket.SerializeLayers(buf, sopts, ls...); err != nil {
 		return nil, err
 	}
@@ -97,6 +121,17 @@ func c08One(c c08Case) string {
 		b, err := serialise(x, gopacket.Payload(inner))
 		if err != nil {
 			return "serialise: " + err.Error()
+		}
+		if x.Authenticated {
+			// another wrapper is serialised in between (e.g. another session): x must
+			// still be the value its bytes encode
+			z := &ipmi.V2Session{PayloadDescriptor: x.PayloadDescriptor, Authenticated: true, ID: x.ID ^ 0x55, Sequence: x.Sequence + 1, IntegrityAlgorithm: integHash(p[4], (p[5]+1)%3)}
+			if _, err := serialise(z, gopacket.Payload(pattern(c.N+3, 9, 1))); err != nil {
+				return "serialise: " + err.Error()
+			}
+			if n := len(x.Signature); n > 0 && !bytes.Equal(x.Signature, b[len(b)-n:]) {
+				return fmt.Sprintf("after another wrapper was serialised, the Signature field of the first (%x) no longer equals the AuthCode in its bytes (%x)", x.Signature, b[len(b)-n:])
+			}
 		}
 		y := &ipmi.V2Session{}
 		if x.Authenticated {
